@@ -324,6 +324,7 @@ class Run:
                        2: os.path.join(self.folder, "altcache", "collection-cache")}
         self.emit(("cfg", dict(self.cfg)), [])
         self.unmodelled = []
+        self.stat_seen = {}        # (size, mtime) -> content id, for every file version of this run (keeps stat_ok true)
 
     def close(self):
         CUR[0] = None
@@ -468,7 +469,9 @@ class Run:
         with open(path, "rb") as f:
             data = f.read()
         st = os.stat(path)
-        return (self.d.content(tag, data), st.st_size, st.st_mtime_ns)
+        cid = self.d.content(tag, data)
+        self.stat_seen.setdefault((st.st_size, st.st_mtime_ns), cid)
+        return (cid, st.st_size, st.st_mtime_ns)
 
     def end_upload(self, rec, res, exc):
         self.cur_upload = None
@@ -605,6 +608,11 @@ class Run:
         """Write (data is bytes) or remove (data None) an item file by other means."""
         storage = self.srv.application._storage
         p = os.path.join(self.root, collpath, name)
+        if data is not None:
+            # the hypothesis of the mtime+size mode: never two different contents with the same size and mtime
+            if self.stat_seen.get((len(data), mtime), self.d.content(tag, data)) != self.d.content(tag, data):
+                mtime = self.tick()
+            self.stat_seen[(len(data), mtime)] = self.d.content(tag, data)
         with storage.acquire_lock("w"):
             if data is None:
                 with contextlib.suppress(FileNotFoundError):
